@@ -425,6 +425,21 @@ def b_mixed(ctx):
                     except Exception as e:   # noqa
                         ctx.count(f'solver-exception:{name}')
                         continue
+                    # the same loads as a Series whose labels are not 0..n-1 (reversed labels; 1-based labels as Binned uses them): element-wise the array result
+                    # (added after seed C06-f indexed the retry of unconverged entries by label)
+                    import pandas as pd
+                    for iname, idx in (('reversed labels', np.arange(len(arg), 0, -1) - 1), ('1-based labels', np.arange(1, len(arg) + 1))):
+                        ctx.case(True, key=(name, Kp, k, secondary, iname))
+                        try:
+                            gs = np.asarray(fn(pd.Series(arg, index=pd.Index(idx))), dtype=float)
+                        except Exception as e:   # noqa
+                            ctx.fail(f'C06:mixed-array:series-labels:{name}:raises:{type(e).__name__}', f'{name}: the loads of set {k} (K_p={Kp}) as a Series with {iname} raise {type(e).__name__}: {str(e)[:100]}; as an array they do not',
+                                     {'K_p': Kp, 'set': k, 'labels': iname})
+                            continue
+                        if not np.allclose(gs, got, rtol=1e-9, atol=0, equal_nan=True):
+                            j_ = int(np.argmax(~np.isclose(gs, got, rtol=1e-9, atol=0, equal_nan=True)))
+                            ctx.fail(f'C06:mixed-array:series-labels:{name}', f'{name}: the loads of set {k} (K_p={Kp}) as a Series with {iname}: entry {j_} (load {arg[j_]}) = {gs[j_]}, as an array {got[j_]}',
+                                     {'K_p': Kp, 'set': k, 'labels': iname})
                     for LL, s in zip(arg, got):
                         ctx.case(abs(LL) > K / 10, key=(name, Kp, k, secondary, float(LL)))
                         root = _true_root(name, E, K, n, Kp, abs(float(LL)), secondary, abs(float(s)) if np.isfinite(s) else abs(float(LL)))
